@@ -146,6 +146,14 @@ fn error_docs() -> Vec<String> {
         r##"<svg><g><rect xy="#q|h" wh="2"/><rect xy="#r|v" wh="2"/></g><rect surround="#s"/><rect inside="#t"/><use href="#u"/></svg>"##.into(),
         r##"<rect xy="#a|h" wh="2"/><rect xy="#b|h" wh="2"/><rect xy="#c|h" wh="2"/><rect xy="#d|h" wh="2"/><rect xy="#e|h" wh="2"/><rect xy="#f|h" wh="2"/>"##.into(),
         r##"<svg><loop count="2"><rect xy="#x|h" wh="1"/><rect xy="#y|h" wh="1"/></loop></svg>"##.into(),
+        // several candidates for ONE reported error: which of them is named must not depend on a hash order
+        r##"<svg><config var-limit="3"/><g a="11111" b="22222" c="33333" d="44444" e="55555" f="66666"><rect wh="5"/></g></svg>"##.into(),
+        r##"<svg><config var-limit="3"/><rect id="r" wh="5"/><reuse href="#r" a="11111" b="22222" c="33333" d="44444" e="55555"/></svg>"##.into(),
+        r##"<svg><config var-limit="3"/><var a="11111" b="22222" c="33333" d="44444" e="55555"/></svg>"##.into(),
+        r##"<svg><config nosuch="1" another="2" third="3" fourth="4" fifth="5"/></svg>"##.into(),
+        r##"<svg><rect wh="5" x="{{1+}}" y="{{2+}}" rx="{{3+}}" fill="{{4+}}" stroke="{{5+}}"/></svg>"##.into(),
+        r##"<svg><g a="{{1+}}" b="{{2+}}" c="{{3+}}" d="{{4+}}" e="{{5+}}"><rect wh="1"/></g></svg>"##.into(),
+        r##"<svg><rect id="t" wh="1"/><reuse href="#t" a="$nope1 {{1+}}" b="{{2+}}" c="{{3+}}" d="{{4+}}"/></svg>"##.into(),
     ]
 }
 
@@ -458,6 +466,8 @@ pub fn run(tier: Tier) -> i32 {
         r##"<svg><rect xy="#a" wh="1"/><circle cxy="#b" r="1"/><line start="#c" end="#d"/><rect wh="{{1+}}"/></svg>"##,
         r##"<svg><g><rect xy="#a" wh="1"/><if test="1"><rect xy="#b" wh="1"/></if></g><rect xy="#c" wh="1"/></svg>"##,
         r##"<svg><rect wh="5" class="d-grid-5 d-grid-05 d-hatch-3" text="{{randint(1, 1000)}}"/></svg>"##,
+        r##"<svg><config var-limit="3"/><g a="11111" b="22222" c="33333" d="44444" e="55555" f="66666"><rect wh="5"/></g></svg>"##,
+        r##"<svg><rect wh="5" x="{{1+}}" y="{{2+}}" rx="{{3+}}" fill="{{4+}}" stroke="{{5+}}"/></svg>"##,
     ];
     let reps = tier.pick(6, 12);
     let st = run_space(cli_docs.len(), |i| {
